@@ -15,7 +15,39 @@ import (
 	"github.com/wokdav/gopki/generator/config"
 )
 
-func init() { streams["hview"] = streamHview }
+func init() {
+	streams["hview"] = func() { streamHviewSel("") }
+	// only the pairs that edit one member inside an admission (run under C16: a stale admission extension after such an edit)
+	streams["hview-adm"] = func() { streamHviewSel("adm") }
+}
+
+// one admission tree with every optional member present; [edit] changes exactly one member inside it
+func admTree(edit int) *Admission {
+	v := func(k int, a, b string) string {
+		if k == edit {
+			return b
+		}
+		return a
+	}
+	return &Admission{
+		Auth: &[2]string{"dns", v(0, "authority.example", "other-authority.example")},
+		List: []Admissions{{
+			Auth:   &[2]string{"mail", v(1, "kammer@a.example", "kammer@b.example")},
+			Naming: &Naming{Oid: v(2, "1.2.276.0.76.4.1", "1.2.276.0.76.4.2"), Url: v(3, "http://na.example/a", "http://na.example/b"), Text: v(4, "Kammer A", "Kammer B")},
+			Infos: []ProfInfo{{
+				Naming:  &Naming{Url: v(5, "http://pi.example/a", "http://pi.example/b"), Text: v(6, "Beruf A", "Beruf B")},
+				Items:   []string{"Arzt", v(7, "Apotheker", "Apothekerin")},
+				Oids:    []string{v(8, "1.2.276.0.76.4.30", "1.2.276.0.76.4.31")},
+				RegNum:  v(9, "1-2-3", "1-2-4"),
+				AddInfo: v(10, "!binary:AQID", "!binary:AQIE"),
+			}, {
+				Items: []string{v(11, "Zahnarzt", "Zahnärztin")},
+			}},
+		}, {
+			Infos: []ProfInfo{{Items: []string{v(12, "X", "Y")}, RegNum: v(13, "", "R")}},
+		}},
+	}
+}
 
 type hside struct {
 	alias, issuer string
@@ -107,7 +139,7 @@ func clonePol(p []Policy) []Policy {
 	return o
 }
 
-func streamHview() {
+func streamHviewSel(only string) {
 	g := &gen{r: rand.New(rand.NewSource(seed*15485863 + 13)), focus: "c13"}
 	n := 70
 	if thorough() {
@@ -132,6 +164,30 @@ func streamHview() {
 		}
 		base := hside{alias: "e", issuer: g.pick("", "root"), cfg: c, prof: prof}
 		tag := fmt.Sprintf("hview-%d-%d", seed, i)
+		// ---- one member inside an admission differs (the admission sits in the certificate's list or in the profile's)
+		if i%2 == 0 || only == "adm" {
+			for k := 0; k <= 13; k++ {
+				if !thorough() && only != "adm" && (k+i/2)%4 != 0 {
+					continue
+				}
+				a, b := base, base
+				ea := Ext{Kind: "adm", HasContent: true, Crit: -1, Adm: admTree(-1)}
+				eb := Ext{Kind: "adm", HasContent: true, Crit: -1, Adm: admTree(k)}
+				if prof != nil && k%2 == 1 {
+					pa, pb := *prof, *prof
+					pa.Exts = append(append([]PExt{}, prof.Exts...), PExt{Ext: ea})
+					pb.Exts = append(append([]PExt{}, prof.Exts...), PExt{Ext: eb})
+					a.prof, b.prof = &pa, &pb
+				} else {
+					a.cfg.Exts = append(append([]Ext{}, base.cfg.Exts...), ea)
+					b.cfg.Exts = append(append([]Ext{}, base.cfg.Exts...), eb)
+				}
+				emitPair(fmt.Sprintf("%s-adm-inner-%d", tag, k), a, b, true)
+			}
+		}
+		if only == "adm" {
+			continue
+		}
 		// ---- differences that are not certificate relevant
 		same := base
 		emitPair(tag+"-reparse", base, same, false)
